@@ -1,16 +1,24 @@
 #!/bin/bash
-# Process every delivered seed (/tmp/wt-C*/seed/<k>/) that has no log yet: verify it, then run
-# all 20 quick checks against it in the scratch copy.  Logs: /tmp/seedlogs/<ID>-<k>.log
+# Process every delivered seed (/tmp/wt-C*/seed/<k>/): verify it (suite passes, demo fails with /
+# passes without), then run quick checks against it in the scratch copy.
+# usage: tools/seedqueue.sh [own|all]   own = only the seed's own property check (default), all = all 20
+# Logs: /tmp/seedlogs/<mode>/<ID>-<k>.log
 set -u
+mode=${1:-own}
 export MREPO=${MREPO:-/tmp/m1/repo} MHARNESS=${MHARNESS:-/tmp/m1/harness}
-mkdir -p /tmp/seedlogs
+mkdir -p /tmp/seedlogs/$mode /tmp/seedlogs/verify
 for sd in /tmp/wt-C*/seed/*/; do
     [ -f "$sd/patch.diff" ] && [ -f "$sd/demo.rs" ] && [ -f "$sd/meta.json" ] || continue
     id=$(echo "$sd" | sed -E 's#/tmp/wt-(C[0-9]+)/seed/([0-9]+)/#\1-\2#')
-    log=/tmp/seedlogs/$id.log
+    prop=${id%%-*}
+    vlog=/tmp/seedlogs/verify/$id.log
+    if [ ! -f "$vlog" ]; then /verif/tools/seedverify.sh "$sd" > "$vlog" 2>&1; fi
+    log=/tmp/seedlogs/$mode/$id.log
     [ -f "$log" ] && continue
-    echo "== $id" > "$log"
-    /verif/tools/seedverify.sh "$sd" >> "$log" 2>&1
-    /verif/tools/seedrun.sh "$sd/patch.diff" >> "$log" 2>&1
+    if [ "$mode" = own ]; then
+        /verif/tools/seedrun.sh "$sd/patch.diff" "$prop" > "$log" 2>&1
+    else
+        /verif/tools/seedrun.sh "$sd/patch.diff" > "$log" 2>&1
+    fi
     echo "done $id: $(grep caught-by "$log")"
 done
